@@ -13,6 +13,7 @@
 -/
 import CB.Gen.SafeGcdLimbs
 import CB.Lemmas.GenBitsChains
+import CB.Lemmas.GenBitsSafeGcdLimbs
 import CB.Lemmas.GenSafeGcdConv
 import Std.Tactic.BVDecide
 set_option linter.unusedTactic false
@@ -91,5 +92,22 @@ theorem toUint_bridge (L S : Nat) (u : List (BitVec 64)) :
     nats (Convert.to_uint L S u) = CB.SafeGcd.toUint (nats u) S := by
   rw [to_uint_eq, cvConvert_bridge u 62 64 S _ (by omega) (by omega) (by omega) (by omega) mask64_toNat]
   rfl
+
+/-! ## `SafeGcdInverter::{new, inv}`: the compositions, as the source writes them -/
+
+theorem inverter_new_eq (L S : Nat) (m a : List (BitVec 64)) :
+    InverterApi.new L S m a = (Convert.from_uint L S m, Convert.from_uint L S a, CB.Gen.SafeGcd.inv_mod2_62 m) := by
+  round_eq
+
+theorem inverter_inv_eq (L S : Nat) (s : List (BitVec 64) × List (BitVec 64) × BitVec 64) (v : List (BitVec 64)) :
+    InverterApi.inv L S s v =
+      (Convert.to_uint L S
+        (Inverter.norm L s (SafeGcdLimbs.divsteps L s.2.1 s.1 (Convert.from_uint L S v) s.2.2).1
+          (UnsatInt.eq L (SafeGcdLimbs.divsteps L s.2.1 s.1 (Convert.from_uint L S v) s.2.2).2 (List.replicate L MASK62))),
+       Choice.or
+        (UnsatInt.eq L (SafeGcdLimbs.divsteps L s.2.1 s.1 (Convert.from_uint L S v) s.2.2).2 ((List.replicate L 0#64).set 0 1#64))
+        (UnsatInt.eq L (SafeGcdLimbs.divsteps L s.2.1 s.1 (Convert.from_uint L S v) s.2.2).2 (List.replicate L MASK62))) := by
+  unfold InverterApi.inv
+  first | rfl | (simp only []; chain_congr 6)
 
 end CB.GenBits
